@@ -194,7 +194,7 @@ func readCurrentRegex(filePath string, ruleId string, chainOffset uint8) string 
 	foundRule := false
 	chainCount := uint8(0)
 	for index, line = range lines {
-		if !foundRule && idRegex.Match(line) {
+		if !foundRule && isIdLine(idRegex, line) {
 			foundRule = true
 			if chainOffset == 0 {
 				index--
